@@ -305,6 +305,12 @@ impl<'a, R: ReadValue> LimitReader<'a, R> {
     /// Returns an error if fewer than `len` bytes remain in this reader.
     pub fn sub_limit(&mut self, len: u64) -> Result<LimitReader<'_, R>, ProtobufError> {
         let end = self.end_after(len)?;
+        // `u64::MAX` is reserved to mean "limited only by the end of the
+        // stream" (see `at_limit`). No real stream is that long, so a
+        // sub-reader with this end cannot be satisfied.
+        if end == u64::MAX {
+            return Err(ProtobufError::new(ErrorKind::Eof));
+        }
         Ok(LimitReader {
             end,
             inner: self.inner,
@@ -351,7 +357,13 @@ impl<'a, R: ReadValue> ReadValue for LimitReader<'a, R> {
     fn read_varint(&mut self) -> Result<u64, ProtobufError> {
         // Varints are at least 1 byte long, and can be up to 10.
         self.check_has_bytes(1)?;
-        self.inner.read_varint()
+        let value = self.inner.read_varint()?;
+        // The length of a varint is not known up front. Check that it did not
+        // extend beyond the end of this reader.
+        if self.position() > self.end {
+            return Err(ProtobufError::new(ErrorKind::InvalidVarint));
+        }
+        Ok(value)
     }
 
     fn read_bytes(
@@ -454,5 +466,16 @@ mod tests {
 
         let eof = lr.read_varint().err().unwrap();
         assert!(matches!(eof.kind(), ErrorKind::Eof));
+    }
+
+    #[test]
+    fn test_limit_reader_varint_crossing_limit() {
+        // Two-byte varint, but the reader is limited to the first byte.
+        let buf = encode_varint(1234);
+        assert_eq!(buf.len(), 2);
+        let mut reader = ValueReader::from_buf(buf);
+        let mut lr = LimitReader::new(&mut reader, 1);
+        let err = lr.read_varint().err().unwrap();
+        assert!(matches!(err.kind(), ErrorKind::InvalidVarint));
     }
 }
